@@ -1253,3 +1253,61 @@ Proof.
                 (f_imports f) false (tp_group _ _ _ _ _ _ _ _ HF) Hm).
   reflexivity.
 Qed.
+
+(* ------------------------------------------------------------------ an example for the threaded form *)
+(* A fresh table.  The first statement imports fmt; the Dict of the second statement has two
+   KEYS that are qualified identifiers of fmt - not settled at the empty table, settled at
+   the table the traversal has when it arrives at the Dict - and a value that imports os. *)
+Definition th_cfg : config := mkcfg [] [] [].
+Definition th_pairs : list (code * code) :=
+  [(CStmt [qual 2 (S "fmt") (S "B")], CStmt [CTok (TkLit (LInt 2))]);
+   (CStmt [qual 3 (S "fmt") (S "A")], CStmt [qual 4 (S "os") (S "X")])].
+Definition th_tree (pairs : list (code * code)) : code :=
+  CGroup 0 [] [] [] [] true
+    [CStmt [qual 1 (S "fmt") (S "Println")];
+     CStmt [CGroup 7 s_values (S "{") (S "}") (S ",") false [CDict pairs]]].
+
+Ltac th_inj E := vm_compute in E; injection E; clear E; intros; subst.
+
+Ltac th_step :=
+  first
+    [ apply ms_tok | apply ms_com | apply gs_nil | apply ss_nil | apply p2_nil
+    | apply ms_group; intros _
+    | apply ms_stmt
+    | apply gs_cons;
+      let t0 := fresh "t0" in let E := fresh "E" in let H := fresh "H" in
+      intros t0 E; th_inj E;
+      split; [intros H; vm_compute in H; try discriminate H; clear H
+             | intros H; vm_compute in H; try discriminate H; clear H; split;
+               [| let ta := fresh "ta" in let s := fresh "s" in let E2 := fresh "E" in
+                  intros ta s E2; th_inj E2]]
+    | apply ss_cons;
+      let H := fresh "H" in
+      [intros H; vm_compute in H; try discriminate H; clear H
+      | intros H; vm_compute in H; try discriminate H; clear H; split;
+        [| let c := fresh "ctx" in let ta := fresh "ta" in let s := fresh "s" in let E2 := fresh "E" in
+           intros c ta s E2; destruct c; th_inj E2]]
+    | apply p2_cons;
+      [| let ta := fresh "ta" in let s := fresh "s" in let E := fresh "E" in
+         intros ta s E; th_inj E; split;
+         [| let tb := fresh "tb" in let s' := fresh "s" in let E2 := fresh "E" in
+            intros tb s' E2; th_inj E2]] ].
+
+Lemma th_tree_safe : maps_safe th_cfg [] (th_tree th_pairs).
+Proof.
+  unfold th_tree. repeat th_step.
+  apply ms_dict.
+  - intros kv [<-|[<-|[]]] _; (split; [repeat th_step | eexists; vm_compute; reflexivity]).
+  - apply nodupb_sound. vm_compute. reflexivity.
+  - match goal with |- pass2_safe _ _ _ ?L => let L' := eval vm_compute in L in change L with L' end.
+    repeat th_step.
+Qed.
+
+Lemma th_tree_not_ok : ~ maps_ok th_cfg [] (th_tree th_pairs).
+Proof.
+  intros H. apply maps_ok_group_iff in H. inversion H as [|? ? _ H2]; subst. inversion H2 as [|? ? H3 _]; subst.
+  specialize (H3 eq_refl). apply maps_ok_stmt_iff in H3. inversion H3 as [|? ? H4 _]; subst.
+  specialize (H4 eq_refl). apply maps_ok_group_iff in H4. inversion H4 as [|? ? H5 _]; subst.
+  specialize (H5 eq_refl). apply maps_ok_dict_iff in H5. destruct H5 as (_ & HK & _).
+  destruct (HK _ (or_introl eq_refl) eq_refl) as [s Hs]. vm_compute in Hs. discriminate.
+Qed.
